@@ -54,7 +54,7 @@ ASSUMPTIONS = ["2xN profile tables cover psi_n in [0, 1] (tables that do not are
                "synthetic grids are uniform (as EFIT grids are); bundled-grid field magnitudes are not judged (np.gradient "
                "discretisation up to 11 % of max), only orientation",
                "points where the in-plane field is exactly zero have no defined basis and are skipped (counted)"]
-QUICK = dict(cases=600, workers=2, timecap=45)
+QUICK = dict(cases=500, workers=2, timecap=45)
 THOROUGH = dict(cases=30000, workers=16, timecap=600)
 REQUIRED = {"psin_nonneg": 20000, "psin_clamp_decisive": 20, "psin_def": 20000, "psi_nodes": 1000, "psi_analytic": 5000,
             "lcfs_mask": 20000, "map2d_inside": 4000, "map2d_outside": 4000, "map3d": 8000, "map3d_phi": 2000,
@@ -452,38 +452,52 @@ def _run(case, ctx):
     if R.min() < G["r"][0] or R.max() > G["r"][-1]:
         ctx.skip("3-D radius rounds outside the grid")
         return
-    psi_c = np.empty(n)
-    psin = np.empty(n)
-    mask = np.empty(n)
-    s2 = np.empty(n)
-    s3 = np.full(n, np.nan)
-    B = np.empty((n, 3))
-    T = np.empty((n, 3))
-    Pv = np.empty((n, 3))
-    Nv = np.empty((n, 3))
-    V2 = np.empty((n, 3))
-    V3 = np.full((n, 3), np.nan)
     f_psi, f_psin, f_mask, f_b = eq.psi, eq.psi_normalised, eq.inside_lcfs, eq.b_field
     f_t, f_p, f_n = eq.toroidal_vector, eq.poloidal_vector, eq.surface_normal
-    for k, (r_, z_, ph, x, y, ip) in enumerate(rows):
-        psi_c[k] = _call(ctx, "psi", f_psi, r_, z_)
-        psin[k] = _call(ctx, "psi_normalised", f_psin, r_, z_)
-        mask[k] = _call(ctx, "inside_lcfs", f_mask, r_, z_)
-        s2[k] = _call(ctx, "map2d()", m2, r_, z_)
-        b = _call(ctx, "b_field", f_b, r_, z_)
-        B[k] = (b.x, b.y, b.z)
-        t = _call(ctx, "toroidal_vector", f_t, r_, z_)
-        T[k] = (t.x, t.y, t.z)
-        p = _call(ctx, "poloidal_vector", f_p, r_, z_)
-        Pv[k] = (p.x, p.y, p.z)
-        q = _call(ctx, "surface_normal", f_n, r_, z_)
-        Nv[k] = (q.x, q.y, q.z)
-        v = _call(ctx, "map_vector2d()", v2, r_, z_)
-        V2[k] = (v.x, v.y, v.z)
-        if ph == ph:
-            s3[k] = _call(ctx, "map3d()", m3, x, y, z_)
-            v = _call(ctx, "map_vector3d()", v3, x, y, z_)
-            V3[k] = (v.x, v.y, v.z)
+
+    def col(name, fn, width, three_d=False, essential=False):
+        """Evaluate one accessor over all rows; an exception is a violation (reported once per case and accessor),
+        the row stays NaN and is excluded from the comparisons that need it."""
+        out = np.full((n, width), np.nan)
+        reported = False
+        for k, (r_, z_, ph, x, y, ip) in enumerate(rows):
+            if three_d and ph != ph:
+                continue
+            try:
+                v = fn(x, y, z_) if three_d else fn(r_, z_)
+            except Exception as ex:  # noqa
+                if not reported:
+                    ctx.viol("%s:raises-%s" % (name, type(ex).__name__),
+                             "%s raised %s for an in-domain point: %s" % (name, type(ex).__name__, str(ex)[:200]),
+                             r=r_, z=z_, phi=ph, eq=eqcls)
+                    reported = True
+                if essential:
+                    raise _TargetError(name)
+                continue
+            out[k] = (v.x, v.y, v.z) if width == 3 else v
+            if not np.all(np.isfinite(out[k])) and not reported:
+                ctx.viol("%s:non-finite" % name, "%s returned a non-finite value for an in-domain point" % name,
+                         r=r_, z=z_, phi=ph, eq=eqcls, got=out[k])
+                reported = True
+        return out if width == 3 else out[:, 0]
+
+    psi_c = col("psi", f_psi, 1, essential=True)
+    psin = col("psi_normalised", f_psin, 1, essential=True)
+    mask = col("inside_lcfs", f_mask, 1, essential=True)
+    s2 = col("map2d()", m2, 1)
+    B = col("b_field", f_b, 3)
+    T = col("toroidal_vector", f_t, 3)
+    Pv = col("poloidal_vector", f_p, 3)
+    Nv = col("surface_normal", f_n, 3)
+    V2 = col("map_vector2d()", v2, 3)
+    s3 = col("map3d()", m3, 1, three_d=True)
+    V3 = col("map_vector3d()", v3, 3, three_d=True)
+    ok_s2 = np.isfinite(s2)
+    ok_s3 = np.isfinite(s3)
+    ok_B = np.isfinite(B).all(axis=1)
+    ok_basis = ok_B & np.isfinite(T).all(axis=1) & np.isfinite(Pv).all(axis=1) & np.isfinite(Nv).all(axis=1)
+    ok_V2 = np.isfinite(V2).all(axis=1)
+    ok_V3 = np.isfinite(V3).all(axis=1)
 
     # ---- psi_normalised ------------------------------------------------------------------------
     ctx.check(bool(np.all(psin >= 0.0)) and bool(np.all(np.isfinite(psin))), "psi_normalised:negative",
@@ -556,34 +570,32 @@ def _run(case, ctx):
     pk = "array" if prof["kind"] in ("array", "array_linear") else prof["kind"]
     sel_in = dec & inside
     sel_out = dec & ~inside
-    if sel_in.any():
-        ctx.close(s2[sel_in], oracle(psin[sel_in]), "map2d:%s:inside-not-profile-of-psin" % pk,
+    si, so = sel_in & ok_s2, sel_out & ok_s2
+    if si.any():
+        ctx.close(s2[si], oracle(psin[si]), "map2d:%s:inside-not-profile-of-psin" % pk,
                   "map2d inside the LCFS differs from the profile evaluated at psi_normalised of the point",
                   rtol=1e-12, atol=1e-12 * pscale, monitor="map2d_inside", profile_kind=prof["kind"], eq=eqcls)
-    if sel_out.any():
-        ctx.close(s2[sel_out], np.full(int(sel_out.sum()), out_val), "map2d:outside-not-outside-value",
+    if so.any():
+        ctx.close(s2[so], np.full(int(so.sum()), out_val), "map2d:outside-not-outside-value",
                   "map2d outside the LCFS differs from value_outside_lcfs", atol=1e-12 * pscale, monitor="map2d_outside",
                   profile_kind=prof["kind"], eq=eqcls)
-    m = is3 & dec3
+    m = is3 & dec3 & ok_s2 & ok_s3
     if m.any():
         ctx.close(s3[m], s2[m], "map3d:not-axisymmetric-extension-of-map2d",
                   "map3d(x, y, z) differs from map2d(sqrt(x^2+y^2), z)", rtol=1e-11, atol=1e-11 * pscale, monitor="map3d", eq=eqcls)
     # same (r, z), two toroidal angles
     a1 = np.arange(1, n, 3)
     a2 = a1 + 1
-    mm = dec3[a1] & dec3[a2]
+    mm = dec3[a1] & dec3[a2] & ok_s3[a1] & ok_s3[a2]
     if mm.any():
         ctx.close(s3[a1][mm], s3[a2][mm], "map3d:depends-on-toroidal-angle", "map3d differs between two toroidal angles at the same (r, z)",
                   rtol=1e-11, atol=1e-11 * pscale, monitor="map3d_phi", eq=eqcls)
 
     # ---- basis ---------------------------------------------------------------------------------
     bpol = np.hypot(B[:, 0], B[:, 2])
-    nz = bpol > 0.0
-    if (~nz).any():
-        ctx.skips["in-plane field exactly zero: basis undefined"] += int((~nz).sum())
-    if not np.all(np.isfinite(B)):
-        k = int(np.argmax(~np.isfinite(B).all(axis=1)))
-        ctx.viol("b_field:non-finite", "b_field returned a non-finite component", r=R[k], z=Z[k], got=B[k])
+    nz = ok_basis & (bpol > 0.0)
+    if (ok_B & (bpol == 0.0)).any():
+        ctx.skips["in-plane field exactly zero: basis undefined"] += int((ok_B & (bpol == 0.0)).sum())
     if nz.any():
         t, p, q, b = T[nz], Pv[nz], Nv[nz], B[nz]
         nb = int(nz.sum())
@@ -608,23 +620,24 @@ def _run(case, ctx):
     if sol is not None:
         tol_r = (SAFETY * bd.dpsi_dR(R, Z) + floor) / R
         tol_z = (SAFETY * bd.dpsi_dZ(R, Z) + floor) / R
-        ctx.close(B[:, 0], -sol.dpsi_dZ(R, Z) / R, "b_field:solovev:br-not-minus-dpsi_dz-over-r",
+        ctx.close(B[ok_B, 0], (-sol.dpsi_dZ(R, Z) / R)[ok_B], "b_field:solovev:br-not-minus-dpsi_dz-over-r",
                   "radial field deviates from -psi_Z / r of the analytic flux by more than the np.gradient + interpolation bound",
-                  atol=tol_z, monitor="field_analytic", eq=eqcls)
-        ctx.close(B[:, 2], sol.dpsi_dR(R, Z) / R, "b_field:solovev:bz-not-dpsi_dr-over-r",
+                  atol=tol_z[ok_B], monitor="field_analytic", eq=eqcls)
+        ctx.close(B[ok_B, 2], (sol.dpsi_dR(R, Z) / R)[ok_B], "b_field:solovev:bz-not-dpsi_dr-over-r",
                   "vertical field deviates from psi_R / r of the analytic flux by more than the np.gradient + interpolation bound",
-                  atol=tol_r, monitor="field_analytic", eq=eqcls)
+                  atol=tol_r[ok_B], monitor="field_analytic", eq=eqcls)
         fe, fa = e["f_edge"], e["f_alpha"]
-        if sel_in.any():
-            ctx.close(B[sel_in, 1], fe * (1 + fa * (1 - psin[sel_in])) / R[sel_in], "b_field:solovev:bt-inside-not-F-over-r",
+        bi, bo = sel_in & ok_B, sel_out & ok_B
+        if bi.any():
+            ctx.close(B[bi, 1], fe * (1 + fa * (1 - psin[bi])) / R[bi], "b_field:solovev:bt-inside-not-F-over-r",
                       "toroidal field inside the LCFS differs from F(psi_n) / r", rtol=1e-10, monitor="field_analytic", eq=eqcls)
-        if sel_out.any():
-            ctx.close(B[sel_out, 1], fe / R[sel_out], "b_field:solovev:bt-outside-not-vacuum",
+        if bo.any():
+            ctx.close(B[bo, 1], fe / R[bo], "b_field:solovev:bt-outside-not-vacuum",
                       "toroidal field outside the LCFS differs from the vacuum field B_vac R_vac / r", rtol=1e-12, monitor="field_analytic", eq=eqcls)
     else:
         r_, z_ = G["r"], G["z"]
         bmax = _max_bpol_nodes(eq, G, "bmax_" + e["kind"])
-        sel = (R >= r_[2]) & (R <= r_[-3]) & (Z >= z_[2]) & (Z <= z_[-3]) & (bpol >= 0.3 * bmax)
+        sel = (R >= r_[2]) & (R <= r_[-3]) & (Z >= z_[2]) & (Z <= z_[-3]) & ok_B & (np.nan_to_num(bpol) >= 0.3 * bmax)
         if sel.any():
             h = 1e-3 * min(np.min(np.diff(r_)), np.min(np.diff(z_)))
             gr = np.array([(f_psi(a_ + h, b_) - f_psi(a_ - h, b_)) / (2 * h) for a_, b_ in zip(R[sel], Z[sel])])
@@ -641,7 +654,8 @@ def _run(case, ctx):
 
     # ---- velocity maps -------------------------------------------------------------------------
     vs = max(_profile_scale(vel[k_]) for k_ in ("tor", "pol", "nor")) + float(np.max(np.abs(vo)))
-    sv_in = sel_in & nz
+    sv_in = sel_in & nz & ok_V2
+    vo_sel = sel_out & ok_V2
     if sv_in.any():
         x = psin[sv_in]
         for comp, basis, nm in (("tor", T, "toroidal"), ("pol", Pv, "poloidal"), ("nor", Nv, "normal")):
@@ -655,10 +669,10 @@ def _run(case, ctx):
         ctx.close(np.sum(V2[sv_in] ** 2, axis=1), want2, "map_vector2d:length-not-from-three-components",
                   "|v|^2 of the mapped velocity is not the sum of the squared prescribed components", rtol=1e-11, atol=1e-11 * vs * vs,
                   monitor="vec2d_inside", eq=eqcls)
-    if sel_out.any():
-        ctx.close(V2[sel_out], np.tile(vo, (int(sel_out.sum()), 1)), "map_vector2d:outside-not-outside-value",
+    if vo_sel.any():
+        ctx.close(V2[vo_sel], np.tile(vo, (int(vo_sel.sum()), 1)), "map_vector2d:outside-not-outside-value",
                   "map_vector2d outside the LCFS differs from value_outside_lcfs", atol=1e-12 * vs, monitor="vec2d_outside", eq=eqcls)
-    m = is3 & dec3
+    m = is3 & dec3 & ok_V2 & ok_V3
     if m.any():
         c, s = np.cos(PHI[m]), np.sin(PHI[m])
         g = V3[m]
@@ -667,5 +681,5 @@ def _run(case, ctx):
         ctx.close(cyl, V2[m], "map_vector3d:not-2d-vector-rotated-by-toroidal-angle",
                   "(radial, toroidal, vertical) components of map_vector3d at toroidal angle phi differ from map_vector2d at (sqrt(x^2+y^2), z)",
                   atol=1e-11 * (vs + vmag), monitor="vec3d", eq=eqcls)
-    if sel_in.any() and sel_out.any() and nz.any():
+    if si.any() and so.any() and nz.any():
         ctx.nontrivial()
